@@ -1205,6 +1205,77 @@ def f(x):
 ''', ['f(1)', 'f("s")'])
 
 
+case('read-only property read on self (also from a subclass and from another property; public name; other receivers left alone)', '''
+class R(object):
+    def __init__(self, cap):
+        self._data, self._cap = [], cap
+    @property
+    def _n(self):
+        return len(self._data)
+    @property
+    def room(self):
+        "capacity left"
+        return self._cap - self._n
+    def add(self, v):
+        if self._n < self._cap:
+            self._data.append(v)
+            return True
+        return False
+    def has_room(self, len=None):
+        return self.room > 0, self._n
+    def __repr__(self):
+        return '<R %r/%r room=%r>' % (self._n, self._cap, self.room)
+class S(R):
+    def add2(self, v):
+        return (self._n, R.add(self, v), self._n)
+class Q(object):
+    @property
+    def _q(self):
+        return 5
+    def get(self, other):
+        return self._q + other._q, type(Q._q).__name__
+def f(k):
+    r = S(2)
+    out = [r.add(i) for i in range(k)]
+    return out, repr(r), r.room, r.add2(9), r.has_room(), Q().get(Q())
+''', ['f(0)', 'f(1)', 'f(3)'])
+
+case('property with a setter / re-defined in a subclass / instance parameter re-bound is left alone', '''
+class R(object):
+    def __init__(self):
+        self._v = 1
+    @property
+    def _p(self):
+        return self._v + 1
+    @_p.setter
+    def _p(self, v):
+        self._v = v
+    def get(self):
+        return self._p
+class B(object):
+    @property
+    def _k(self):
+        return 1
+    def get(self):
+        return self._k
+class D(B):
+    @property
+    def _k(self):
+        return 2
+class E(object):
+    @property
+    def _e(self):
+        return 3
+    def get(self, other):
+        self = other
+        return self._e
+def f(x):
+    r = R()
+    r._p = x
+    return r.get(), B().get(), D().get(), E().get(E())
+''', ['f(1)', 'f(4)'], expect_inlined=False)
+
+
 def run_case(name, src, calls, expect_inlined):
     tree = ast.parse(src)
     normalize._ANCHORS = set()      # nothing is an anchor in these toy modules
